@@ -1,5 +1,5 @@
 #!/bin/sh
 # replay without the explorer; run from this directory
 cd "$(dirname "$0")"
-# kinds=ai victim=ai fault=write n=1
-/verif/build/19601eadfc617869/aldor -Nfile=/repo/aldor/aldor/src/aldor.conf -I/repo/aldor/lib/aldor/include -Y/verif/build/19601eadfc617869/aldorlib -Y/verif/build/19601eadfc617869/foam -Fai u.as
+# kinds=split:u.c victim=split:u.c fault=write(persistent) n=1
+/verif/build/ad45f7e8726dc410/aldor -Nfile=/repo/aldor/aldor/src/aldor.conf -I/repo/aldor/lib/aldor/include -Y/verif/build/ad45f7e8726dc410/aldorlib -Y/verif/build/ad45f7e8726dc410/foam -Fc -Csmax=5 u.as
